@@ -91,6 +91,10 @@ def run_proc(binary, job, seed, checks, tier, workdir, tag, timeout):
     env.pop("VERIF_REPLAY", None)
     for k, v in job.get("env", {}).items():
         env[k] = str(v)
+    for k, v in job.get("env_tier", {}).get(tier, {}).items():
+        env[k] = str(v)
+    env["VERIF_SHARD"] = str(job.get("_shard", 0))
+    env["VERIF_SHARDS"] = str(job.get("_shards", 1))
     if job.get("race"):
         env["GORACE"] = "halt_on_error=0 log_path=%s" % os.path.join(workdir, "race-" + tag)
     cmd = [binary, "-test.run", job["run"], "-test.timeout", "%ds" % timeout, "-test.count=1",
@@ -181,7 +185,9 @@ def run_property(prop, tier):
             name = job.get("name", job["run"].strip("^$"))
             seed = derive_seed(base_seed, name, s)
             tag = "%s-s%d" % (name.replace("/", "_"), s)
-            procs.append((bins[bool(job.get("race"))], job, seed, n, tier, workdir, tag, timeout))
+            j2 = dict(job)
+            j2["_shard"], j2["_shards"] = s, shards
+            procs.append((bins[bool(job.get("race"))], j2, seed, n, tier, workdir, tag, timeout))
 
     with ThreadPoolExecutor(max_workers=NCPU) as ex:
         results = list(ex.map(lambda a: run_proc(*a), procs))
